@@ -670,6 +670,28 @@ func lemmaPure(p Packet) (unchanged bool, repeatable bool) {
 	return unchanged, repeatable
 }
 
+// lemmaStringTotal (C17): String() of a constructible packet returns (a panic is reported by the bounded harness with
+// the packet); fmt would swallow the panic, so the method is called directly.
+func lemmaStringTotal(p Packet) (n int) {
+	if s, ok := p.(fmt.Stringer); ok {
+		n = len(s.String())
+	}
+	return n
+}
+
+// lemmaStringDecoded (C17): the same for every packet rtcp.Unmarshal returns, and for the compound view of the list.
+func lemmaStringDecoded(raw []byte) (n int, err error) {
+	ps, err := Unmarshal(raw)
+	if err != nil {
+		return 0, err
+	}
+	for _, p := range ps {
+		n += lemmaStringTotal(p)
+	}
+	n += len(CompoundPacket(ps).String())
+	return n, nil
+}
+
 // lemmaDecodePure (C18): Unmarshal does not write to its input and decoding the same octets again gives the same
 // packets (no dependence on earlier calls).
 func lemmaDecodePure(raw []byte) (inputUnchanged bool, repeatable bool) {
